@@ -99,6 +99,27 @@ class Program(object):
             else:
                 self.symbol_table[label] = AddressValue(index)
 
+    def resolve_defined_symbol(self, statement):
+        """
+        Gives a symbol that an EQU defines in terms of another symbol or of an expression
+        its value. Will raise a TranslationError if that value is not a constant or the
+        address of a label.
+
+        :param statement: the statement that may define such a symbol
+        """
+        if not (statement.label and statement.instruction.is_pseudo_define):
+            return
+        value = self.symbol_table[statement.label]
+        if not (value.is_symbol() or value.is_expression()):
+            return
+        try:
+            resolved = value.resolve(self.symbol_table)
+        except (ValueError, ValueTypeError, ZeroDivisionError) as error:
+            raise TranslationError(str(error), statement)
+        if resolved is None or not (resolved.is_numeric() or resolved.is_address()):
+            raise TranslationError("[{}] is not a constant or a label".format(statement.operand.operand_string), statement)
+        self.symbol_table[statement.label] = resolved
+
     def translate_statements(self):
         """
         Translates all the parsed statements into their respective
@@ -107,6 +128,9 @@ class Program(object):
         self.statements = self.process_mnemonics(self.statements)
         for index, statement in enumerate(self.statements):
             self.save_symbol(index, statement)
+
+        for statement in self.statements:
+            self.resolve_defined_symbol(statement)
 
         for index, statement in enumerate(self.statements):
             statement.resolve_symbols(self.symbol_table)
